@@ -105,17 +105,11 @@ func init() {
 		},
 		"vpBytes": func(in *Interp, caller *frame, site ssa.Instruction, fn *ssa.Function, args []Value) Value {
 			c := in.ctx
-			isNil := in.run.Choose(2)
-			in.run.noteChoose(2, isNil)
 			in.nblob++
 			b := &Blob{ID: in.nblob}
-			if isNil == 1 {
-				b.IsNil = true
-				b.Len = c.Const(0, 64)
-				return b
-			}
+			b.IsNil = in.run.NewInput("blobnil", 0)
 			b.Len = in.run.NewInput("bloblen", 64)
-			in.run.Assume(c.ULe(b.Len, args[0].(*sym.Term)))
+			in.run.Assume(c.And(c.ULe(b.Len, args[0].(*sym.Term)), c.Implies(b.IsNil, c.Eq(b.Len, c.Const(0, 64)))))
 			in.run.blobLens = append(in.run.blobLens, b.Len)
 			return b
 		},
@@ -159,9 +153,6 @@ func init() {
 			c := in.ctx
 			switch b := args[0].(type) {
 			case *Blob:
-				if b.IsNil {
-					return c.Const(0, 64)
-				}
 				return c.Ite(c.Eq(b.Len, c.Const(0, 64)), c.Const(0, 64), c.Const(uint64(b.ID), 64))
 			case Slice:
 				if len(b.Arr) == 0 {
@@ -170,6 +161,26 @@ func init() {
 				return c.ZExt(b.Arr[0].(*sym.Term), 64)
 			}
 			in.unsupported("vpBlobID of %T", args[0])
+			return nil
+		},
+		"vpCaller": func(in *Interp, caller *frame, site ssa.Instruction, fn *ssa.Function, args []Value) Value {
+			// the call site of the function that called vpCaller
+			n := len(in.sites)
+			if n == 0 || in.sites[n-1] == nil {
+				return "?"
+			}
+			return in.shortSite(in.sites[n-1])
+		},
+		"vpAssertEach": func(in *Interp, caller *frame, site ssa.Instruction, fn *ssa.Function, args []Value) Value {
+			conds := args[1].(Slice)
+			names := args[2].(Slice)
+			cs := make([]*sym.Term, len(conds.Arr))
+			ns := make([]string, len(conds.Arr))
+			for i := range conds.Arr {
+				cs[i] = conds.Arr[i].(*sym.Term)
+				ns[i] = names.Arr[i].(string)
+			}
+			in.run.AssertEach(args[0].(string), cs, ns, site)
 			return nil
 		},
 		"vpReachable": func(in *Interp, caller *frame, site ssa.Instruction, fn *ssa.Function, args []Value) Value {
@@ -320,12 +331,12 @@ func (in *Interp) varintLen(v *sym.Term) *sym.Term {
 	return n
 }
 
-func (in *Interp) bytesLen(site ssa.Instruction, v Value) (*sym.Term, bool) {
+func (in *Interp) bytesLen(site ssa.Instruction, v Value) (*sym.Term, *sym.Term) {
 	switch b := v.(type) {
 	case *Blob:
-		return in.lenOf(site, b), !b.IsNil
+		return in.lenOf(site, b), in.ctx.Not(b.IsNil)
 	case Slice:
-		return in.ctx.Const(uint64(len(b.Arr)), 64), !b.Nil
+		return in.ctx.Const(uint64(len(b.Arr)), 64), in.ctx.Bool(!b.Nil)
 	}
 	panic("bytesLen")
 }
@@ -369,9 +380,7 @@ func protoSize(in *Interp, caller *frame, site ssa.Instruction, fn *ssa.Function
 			}
 		case "Data":
 			l, present := in.bytesLen(site, s[i])
-			if present {
-				size = c.Add(size, c.Add(c.Add(c.Const(1, 64), in.varintLen(l)), l))
-			}
+			size = c.Add(size, c.Ite(present, c.Add(c.Add(c.Const(1, 64), in.varintLen(l)), l), c.Const(0, 64)))
 		}
 	}
 	return size
@@ -385,7 +394,7 @@ func protoMarshal(in *Interp, caller *frame, site ssa.Instruction, fn *ssa.Funct
 	if m.T == nil || isNilPtr(m.V) {
 		return Tuple{Slice{Nil: true}, Iface{}}
 	}
-	b := &Blob{ID: in.nblob, AttachT: m.T}
+	b := &Blob{ID: in.nblob, AttachT: m.T, IsNil: c.F}
 	b.Attached = in.deepCopyProto(m.V, m.T)
 	// the encoded length is an unconstrained small value; an all-default
 	// message encodes to zero bytes, which callers cannot distinguish here.
@@ -405,11 +414,11 @@ func protoUnmarshal(in *Interp, caller *frame, site ssa.Instruction, fn *ssa.Fun
 	switch b := args[0].(type) {
 	case *Blob:
 		if b.Attached == nil {
-			if b.IsNil {
+			if in.run.Branch(in.ctx.Eq(b.Len, in.ctx.Const(0, 64)), site) {
 				store(dst, in.zero(pt.Elem()))
 				return Iface{}
 			}
-			in.unsupported("proto.Unmarshal of an opaque blob without an attached message")
+			in.unsupported("proto.Unmarshal of a non-empty opaque blob without an attached message")
 		}
 		if !types.Identical(b.AttachT, m.T) {
 			in.unsupported("proto.Unmarshal: blob holds %v, want %v", b.AttachT, m.T)
